@@ -62,6 +62,9 @@ func VerifLazyBuffer() []byte {
 // lengths a generated length-prefixed field can take (chosen by nondet_choice)
 var verifLazyLens = []int{0, 1, 2, 40}
 
+// VerifLazySetLens selects the length alphabet (index in the replay file refers to it).
+func VerifLazySetLens(l []int) { verifLazyLens = l }
+
 // VerifLazyPattern is the content of generated length-prefixed fields: "A\0A\0..."
 func VerifLazyPattern(i int) byte {
 	if i%2 == 0 {
